@@ -166,6 +166,22 @@ def run(ck):
         ck.case(key="witness", nontrivial=True, kind="witness-refuted-step")
         report("witness of C19_reduce_step_refuted: Crystal(diag(5,1,1), atoms at x = 0, 2/5, 4/5, 1/5, 3/5) raises ArithmeticError: %s" % e,
                dict(wit, reproduce="Crystal(np.diag([5.,1.,1.]), [[np.array([k/5,0,0]) for k in (0,2,4,1,3)]])"), "c19-reduce-nondividing")
+    # probe of the finding c19-minlattice-tie: simple hexagonal lattice (c/a = sqrt(8/3)), one atom, index-4 supercell; minlattice()
+    # stops at a rounding tie (a_i.a_j / a_i^2 = 1/2 -+ 1e-16) with a cell [a1, a2, c + a1 - a2] whose rotations need entries +-2
+    try:
+        Ah = np.array([[.5, .5, 0.], [-np.sqrt(.75), np.sqrt(.75), 0.], [0., 0., np.sqrt(8. / 3.)]])
+        Nh = np.array([[2, -2, 0], [2, 0, -2], [0, -2, 3]])
+        pts = [np.array(v) for v in ([0., 0., 0.], [.5, 0., 0.], [.5, .5, 0.], [0., .5, 0.])]
+        ch = crystal.Crystal(Ah @ Nh, [pts])
+        ck.case(key="tie-probe", nontrivial=True, kind="probe-minlattice-tie")
+        if not (ch.N == 1 and len(ch.G) == 24):
+            report("index-4 supercell [[2,-2,0],[2,0,-2],[0,-2,3]] of the one-atom simple hexagonal lattice reduces to N=%d, |G|=%d (primitive: 1, 24); "
+                   "reduced lattice %s" % (ch.N, len(ch.G), np.round(ch.lattice, 6).tolist()),
+                   {"reproduce": "A=np.array([[.5,.5,0],[-np.sqrt(.75),np.sqrt(.75),0],[0,0,np.sqrt(8/3)]]); N=np.array([[2,-2,0],[2,0,-2],[0,-2,3]]); "
+                                 "len(Crystal(A@N,[[np.array(v) for v in ([0.,0,0],[.5,0,0],[.5,.5,0],[0,.5,0])]]).G)  # 12, primitive cell gives 24"},
+                   "c19-minlattice-tie")
+    except Exception as e:
+        report("tie probe raised %s: %s" % (type(e).__name__, e), {}, "c19-exception")
     terms = []
     ncases = ck.n(70, 1500)
     tries = 0
